@@ -1,7 +1,7 @@
 #!/usr/bin/env python3
 """Must-fail / must-pass corpus for the govc checks.
 
-  ./selftest.py [<property-id> | all] [--jobs N]
+  ./selftest.py [<property-id> | all] [--jobs N] [--only benign] [--match <regex on the entry path>]
 
 mutants/<name>.patch : a change to /repo that compiles, passes the repository's
     tests and breaks a property. meta in mutants/<name>.json:
@@ -99,6 +99,10 @@ def main():
     if "--only" in sys.argv:
         kind_only = sys.argv[sys.argv.index("--only") + 1]
         tasks = [t for t in tasks if (kind_only == "benign") == (t[0] == "benign")]
+    if "--match" in sys.argv:
+        import re
+        rx = re.compile(sys.argv[sys.argv.index("--match") + 1])
+        tasks = [t for t in tasks if rx.search(t[1])]
     bad = 0
     n = 0
     with concurrent.futures.ThreadPoolExecutor(max_workers=jobs) as ex:
